@@ -2193,6 +2193,9 @@ VARIANTS = [
     V('guard clause: single reference -> return (array)', 'B', _P, "\tif isinstance(refs, SignatureArray):\n\t\tvalues = _cast_sigs_array(refs.values)", "\tif len(refs) == 1:\n\t\treturn out\n\tif isinstance(refs, SignatureArray):\n\t\tvalues = _cast_sigs_array(refs.values)", 'B4'),
     V('E: guard clause: no references -> return (array)', 'E', _P, "\tif isinstance(refs, SignatureArray):\n\t\tvalues = _cast_sigs_array(refs.values)", "\tif len(refs) == 0:\n\t\treturn out\n\tif isinstance(refs, SignatureArray):\n\t\tvalues = _cast_sigs_array(refs.values)"),
     V('E: array fast path returns from its own branch', 'E', _P, "\t\t_cmetric._jaccarddist_parallel(query, values, bounds, out)\n", "\t\t_cmetric._jaccarddist_parallel(query, values, bounds, out)\n\t\treturn out\n"),
+    V('E: chunk_slices as a counted loop, last slice clipped', 'E', 'src/gambit/util/misc.py', "\tstart = 0\n\twhile start < n:\n\t\tstop = start + size\n\t\tyield slice(start, stop)\n\t\tstart = stop\n", "\tfor start in range(0, n, size):\n\t\tyield slice(start, min(start + size, n))\n"),
+    V('counted loop stops at n - 1: a last chunk of one element is dropped (seeded C08f)', 'B', 'src/gambit/util/misc.py', "\tstart = 0\n\twhile start < n:\n\t\tstop = start + size\n\t\tyield slice(start, stop)\n\t\tstart = stop\n", "\tfor start in range(0, n - 1, size):\n\t\tyield slice(start, min(start + size, n))\n", 'B5'),
+    V('counted loop starts at the first full chunk boundary', 'B', 'src/gambit/util/misc.py', "\tstart = 0\n\twhile start < n:\n\t\tstop = start + size\n\t\tyield slice(start, stop)\n\t\tstart = stop\n", "\tfor start in range(size, n, size):\n\t\tyield slice(start, start + size)\n", 'B5'),
     V('diagonal not zeroed', 'B', _P, "\t\tnp.fill_diagonal(out, 0)", "\t\tpass", 'B6'),
     V('consecutive-run fast path judged by the endpoints only (seeded C05a)', 'B', 'src/gambit/sigs/base.py',
       "\tdef _getitem_int_array(self, indices):\n\t\tout = SignatureArray.uninitialized(",
